@@ -138,10 +138,13 @@ fn forged_reassembly() -> Scenario {
     Scenario { name: "C19.forged-reassembly|nfrag1-4|last0.1.724.1447.1448|all-orders|dup|second|push".into(), d: 0, run: Box::new(run) }
 }
 
+pub fn replay_case_c19(case: &str) -> Vec<Violation> { crate::c16::FOR_C19.store(true, std::sync::atomic::Ordering::Relaxed); crate::c16::replay_case(case) }
+
 pub fn build(quick: bool) -> PropRun {
     let mut scs = Vec::new();
     use SendMode::*;
-    let sizes: Vec<usize> = if quick { vec![1447, 1448, 1449, 2000, 2896, 2897, 4345, 100_000] } else { vec![1, 1447, 1448, 1449, 2000, 2895, 2896, 2897, 4343, 4344, 4345, 100_000, 1_000_000] };
+    // (64, 65 and 129 fragments: per-fragment bookkeeping of the sender and the receiver is kept in 64-bit words)
+    let sizes: Vec<usize> = if quick { vec![1447, 1448, 1449, 2000, 2896, 2897, 4345, 64 * 1448, 64 * 1448 + 1, 100_000, 128 * 1448 + 1] } else { vec![1, 1447, 1448, 1449, 2000, 2895, 2896, 2897, 4343, 4344, 4345, 64 * 1448, 64 * 1448 + 1, 100_000, 128 * 1448, 128 * 1448 + 1, 1_000_000] };
     for &size in sizes.iter() {
         let cfg = LwCfg { pwin: 4, fwin: 64, rx_alloc: [2_000_000, 2_000_000], ..LwCfg::small() };
         // paths: delivered; skipped by a later packet (first frames lost); window advanced over a partial packet (sync after loss); dropped mid-transfer at every round
@@ -187,6 +190,10 @@ pub fn build(quick: bool) -> PropRun {
         scs.push(ew_scenario_tracked(&format!("C19.ew.events-read-one-step-late.{}", sname), cfg, s2, late, if quick { 1 } else { 2 }, if quick { 14 } else { 30 }));
     }
     scs.push(forged_reassembly());
+    // every datagram of C16's parser sweeps (short payloads after every type byte, substitutions, extensions, truncations with the CRC
+    // re-fixed, constant fills) parsed inside a tracked region: a frame that is rejected half-way must not leave its first datagrams behind
+    crate::c16::FOR_C19.store(true, std::sync::atomic::Ordering::Relaxed);
+    let parse_units = crate::c16::parse_units(quick);
     // a handshake that never completes while the application has already queued packets (they wait in the pending client), run into the
     // 22 s time-out or torn down before it; and the same with the SYN-ACKs lost
     for (sname, lose_syn, lose_synack) in [("syn-never-answered", 12usize, 0usize), ("synack-always-lost", 0, 12)] {
@@ -196,7 +203,7 @@ pub fn build(quick: bool) -> PropRun {
         env.fates = DF_NONE; env.deltas = &[500]; env.fair_delta = 500; env.lose_syn = lose_syn; env.lose_synack = lose_synack; env.stop_when_done = false;
         scs.push(ew_scenario_tracked(&format!("C19.ew.pending-with-queued-sends.{}", sname), cfg, script, env, 0, 58));
     }
-    PropRun { level: "fault_enumeration", scenarios: scs, units: vec![], replay_case: None, summary: Summary {
+    PropRun { level: "fault_enumeration", scenarios: scs, units: parse_units, replay_case: Some(replay_case_c19), summary: Summary {
         rule: "link-world and endpoint-world executions (deviation-bounded fates/timings; the point at which every uflow object is dropped is a completely enumerated free choice) run under a checking global allocator: every release is compared with the size/alignment of its allocation, unknown releases are counted, and live bytes must return to zero after teardown; distinct = distinct (outcome, peak heap class)".into(),
         bounds: json!({"packet_sizes": sizes, "paths": ["delivered", "skipped by a later packet", "window advanced over a partial packet", "dropped mid-transfer at every round", "client/server dropped in every lifecycle state", "TimeSensitive packets going stale / given up / cut across flushes", "handshake never completed with packets queued in the pending client", "forged fragment sets: 1-4 fragments x last fragment 0/1/724/1447/1448 B x every arrival order x duplicate x partial/complete x window pushed past"], "d": if quick { 1 } else { 2 }}),
         assumptions: vec!["the allocator sees every allocation of the thread inside the session, the harness's own included; the harness's allocations are made by std collections whose layouts are correct, so a mismatch is attributed to uflow (its only unsafe re-boxing site is FragmentBuffer::finalize)".into(),
